@@ -109,6 +109,7 @@ def run(cap):
     scales = {k: max(amax(np.abs(nc["curl_bOverB_" + k])), 1e-300) for k in "xyz"}
     zero_xlow = []
     ntilt = [0]
+    joinrows = {}
     nout = [0]
     for region in mesh.regions.values():
         xc = xpoint_cells(region)
@@ -160,6 +161,10 @@ def run(cap):
                 # the tabulated fpol ends (constant continuation) inside the grid: its derivative
                 # jumps there and the oracle's finite differences straddle the kink
                 sel = M & (np.abs(kink(psi(R, Z))) > 0.03)
+            if xy_form and loc == "ylow" and region.ny >= 3:
+                # the x-y form differentiates across region joins: kept per region, compared below (only
+                # the x component contains a y-derivative)
+                joinrows[region.myID] = np.where(selx, np.abs(code["x"] - cx), 0.0) / scales["x"]
             upd("curl_bOverB_y." + loc, np.where(sel, np.abs(code["y"] - cy), 0.0), scales["y"], region, loc)
             upd("curl_bOverB_z." + loc, np.where(sel, np.abs(code["z"] - czz), 0.0), scales["z"], region, loc)
             for k in "xyz":
@@ -178,6 +183,24 @@ def run(cap):
             continue
         thr = 1e-4 if comp == "x" else 1e-3
         out.append(rec(key, cls, w["n"], w["worst"] / w["scale"], thr, where=w["where"], note="max |difference| relative to the field-wide scale; non-orthogonal: grad(y) = unit normal of the measured e_x / (hy cos(beta)), beta measured by the oracle"))
+    # the first y-face after a join is as accurate as its neighbours on either side: the face above it
+    # in the same region and the last interior face of the lower neighbour (second-order scheme: the
+    # error varies smoothly along y; a wrong difference across the join is an O(1) error of the derivative)
+    wj, nj, whj = 0.0, 0, None
+    for region in mesh.regions.values():
+        lid = region.connections["lower"]
+        if region.myID not in joinrows or lid is None or lid not in joinrows:
+            continue
+        e_here, e_low = joinrows[region.myID], joinrows[lid]
+        ej = e_here[:, 0]
+        ref = np.maximum(np.maximum(e_here[:, 1], e_low[:, -2]), 2e-3)
+        r_ = ej / (3.0 * ref)
+        nj += r_.size
+        if amax(r_) > wj:
+            wj = amax(r_)
+            whj = {"region": region.name, "x": argmax_where(r_), "join_error": float(ej[argmax_where(r_)[0]]), "neighbour_error": float(ref[argmax_where(r_)[0]])}
+    if nj:
+        out.append(rec("x-y derivative form: curl_bOverB_x at the first y-face after a region join as accurate as the faces next to it", cls, nj, wj, 1.0, where=whj, note="error at the join face / (3 x the larger error at the two neighbouring faces, floor 2e-3 of the field scale)"))
     if nout[0]:
         out.append(rec("informational: grid points outside the psi data box left out", cls + "|outside-box", nout[0], 0, 0))
     if not orth:
